@@ -829,7 +829,8 @@ def cfgs_for(tier: str) -> list[Cfg]:
 
 
 def task_of(project: dict, texts: dict, trace: bool = True) -> dict:
-    return {"root": project["root"], "main": project["main"], "texts": texts, "lookup": project["lookup"], "trace": trace}
+    return {"root": project["root"], "main": project["main"], "texts": texts, "lookup": project["lookup"], "trace": trace,
+            "warmup": bool(project.get("warmup"))}
 
 
 def _answer(t: dict, s: Any) -> dict:
@@ -910,8 +911,12 @@ def run(run: core.Run) -> int:
         gst.update(g.stats)
         cases.append({"project": p})
     tasks = []
-    for c in cases:
+    for k_, c in enumerate(cases):
         c["texts"], c["pos"] = macrofiles.texts_of(c["project"])
+        if k_ % 3 == 1 and len(c["texts"]) > 1:
+            # a second script of the project (deeper directory, same imports) is compiled first in the same process
+            c["project"]["warmup"] = True
+            gst["warmup_compile_first"] += 1
         tasks.append(task_of(c["project"], c["texts"]))
     pool = core.Pool(jobs, mem_mb=2000)
     try:
